@@ -1,7 +1,7 @@
 #!/bin/bash
 # usage: tools/run_seed_wt.sh C03-1 [PID ...]  -- like run_seed.sh, but in a scratch worktree of /repo
-# (VERIF_REPO points the checks at it), so that /repo itself stays untouched; evidence files are
-# still written to /verif/evidence, re-run the real check afterwards.
+# (VERIF_REPO points the checks at it), so that /repo itself stays untouched; evidence of such runs
+# goes to a scratch directory under the system temp dir, never to /verif/evidence.
 set -u
 S=$1; shift
 P=/verif/seeded/$S/patch.diff
